@@ -40,6 +40,14 @@ fn mesh(a: &mut Args) -> TriMesh {
     let idx: Vec<[u32; 3]> = (0..n).map(|_| [a.u() as u32, a.u() as u32, a.u() as u32]).collect();
     if oriented { TriMesh::with_flags(v, idx, TriMeshFlags::ORIENTED).expect("mesh") } else { TriMesh::new(v, idx).expect("mesh") }
 }
+/// the mesh argument built WITHOUT the ORIENTED flag (no cap triangulation in `local_split`), whatever the flag says
+fn mesh_plain(a: &mut Args) -> TriMesh {
+    let _ = a.b();
+    let v = pts(a);
+    let n = a.u();
+    let idx: Vec<[u32; 3]> = (0..n).map(|_| [a.u() as u32, a.u() as u32, a.u() as u32]).collect();
+    TriMesh::new(v, idx).expect("mesh")
+}
 fn hmesh(oriented: bool, v: &[P3], idx: &[[u32; 3]]) -> String {
     let mut s = format!("{} {} {}", b(oriented), hpts(v), idx.len());
     for t in idx { s.push_str(&format!(" {} {} {}", t[0], t[1], t[2])); }
@@ -61,7 +69,7 @@ fn ksplit(r: SplitResult<TriMesh>) -> &'static str { match r { SplitResult::Nega
 fn ksection(r: IntersectResult<crate::p3::shape::Polyline>) -> &'static str { match r { IntersectResult::Negative => "neg", IntersectResult::Positive => "pos", IntersectResult::Intersect(..) => "cut" } }
 fn same(x: &str, y: &str) -> &'static str { if x == y { "same" } else { "diff" } }
 /// functions that call a plane-section routine: run in a killable child process (see `tm_section`)
-fn calls_section(func: &str) -> bool { matches!(func, "tm_section" | "tm_section_pos" | "tm_canon_section" | "tm_plane_pos" | "tm_plane_canon" | "tm_verdict" | "tm_verdict_pos" | "tm_verdict_canon") }
+fn calls_section(func: &str) -> bool { matches!(func, "tm_section" | "tm_section_m" | "tm_section_m_pos" | "tm_section_m_canon" | "tm_section_pos" | "tm_canon_section" | "tm_plane_pos" | "tm_plane_canon" | "tm_verdict" | "tm_verdict_pos" | "tm_verdict_canon") }
 
 pub fn exec(func: &str, a: &mut Args) -> String {
     if std::env::var("C17_DRY").is_ok() { return "dry".into(); } // debugging aid: list the generated cases without calling parry
@@ -90,6 +98,10 @@ pub fn exec(func: &str, a: &mut Args) -> String {
             match x.clip_line_parameters(&o, &d) { None => "none".into(), Some((t0, t1)) => format!("some {} {}", ff(t0), ff(t1)) } }
         "clip_ray_params" => { let x = aabb(a); let o = d3::p(a); let d = d3::v(a);
             match x.clip_ray_parameters(&Ray::new(o, d)) { None => "none".into(), Some((t0, t1)) => format!("some {} {}", ff(t0), ff(t1)) } }
+        "clip_line_seg" => { let x = aabb(a); let o = d3::p(a); let d = d3::v(a);
+            match x.clip_line(&o, &d) { None => "none".into(), Some(s) => format!("some {} {}", d3::fp(&s.a), d3::fp(&s.b)) } }
+        "clip_ray_seg" => { let x = aabb(a); let o = d3::p(a); let d = d3::v(a);
+            match x.clip_ray(&Ray::new(o, d)) { None => "none".into(), Some(s) => format!("some {} {}", d3::fp(&s.a), d3::fp(&s.b)) } }
         "clip_seg" => { let x = aabb(a); let pa = d3::p(a); let pb = d3::p(a);
             match x.clip_segment(&pa, &pb) { None => "none".into(), Some(s) => format!("some {} {}", d3::fp(&s.a), d3::fp(&s.b)) } }
         "clip_hs_poly" => { let c = d3::p(a); let n = d3::v(a); let poly = pts(a);
@@ -102,10 +114,22 @@ pub fn exec(func: &str, a: &mut Args) -> String {
         "clip_seg_seg" => { let s1 = (d2::p(a), d2::p(a)); let s2 = (d2::p(a), d2::p(a));
             match crate::p2::query::details::clip_segment_segment(s1, s2) { None => "none".into(),
                 Some((ca, cb)) => format!("some {} {} {} {} {} {} {} {}", d2::fp(&ca.0), d2::fp(&ca.1), ca.2, ca.3, d2::fp(&cb.0), d2::fp(&cb.1), cb.2, cb.3) } }
+        "clip_seg_seg_n" => { let s1 = (d2::p(a), d2::p(a)); let s2 = (d2::p(a), d2::p(a)); let n = d2::v(a);
+            match crate::p2::query::details::clip_segment_segment_with_normal(s1, s2, n) { None => "none".into(),
+                Some((ca, cb)) => format!("some {} {} {} {} {} {} {} {}", d2::fp(&ca.0), d2::fp(&ca.1), ca.2, ca.3, d2::fp(&cb.0), d2::fp(&cb.1), cb.2, cb.3) } }
         "tm_split" => { let m = mesh(a); let n = d3::v(a); let bias = a.f(); let eps = a.f();
             match m.local_split(&Unit::new_unchecked(n), bias, eps) {
                 SplitResult::Negative => "neg".into(), SplitResult::Positive => "pos".into(),
                 SplitResult::Pair(l, r) => format!("pair {} {}", fmesh(&l), fmesh(&r)) } }
+        // the cutting part of `local_split`, bit-exact against `Model.Cut.localSplitUncapped`: the mesh is built WITHOUT the
+        // ORIENTED flag (no cap triangulation), whatever the flag in the arguments says
+        "tm_cut" => { let m = mesh_plain(a);
+            let n = d3::v(a); let bias = a.f(); let eps = a.f();
+            fsplit(m.local_split(&Unit::new_unchecked(n), bias, eps)) }
+        "tm_cut_pos" => { let m = mesh_plain(a); let pos = d3::iso(a); let n = d3::v(a); let bias = a.f(); let eps = a.f();
+            fsplit(m.split(&pos, &Unit::new_unchecked(n), bias, eps)) }
+        "tm_cut_canon" => { let m = mesh_plain(a); let axis = a.u(); let bias = a.f(); let eps = a.f();
+            fsplit(m.canonical_split(axis, bias, eps)) }
         "tm_split_pos" => { let m = mesh(a); let pos = d3::iso(a); let n = d3::v(a); let bias = a.f(); let eps = a.f();
             match m.split(&pos, &Unit::new_unchecked(n), bias, eps) {
                 SplitResult::Negative => "neg".into(), SplitResult::Positive => "pos".into(),
@@ -113,28 +137,43 @@ pub fn exec(func: &str, a: &mut Args) -> String {
         // The pinned `intersection_with_local_plane` never terminates (and allocates without bound) on sections that are
         // open polylines, so the real call runs in a child process that is killed after a time budget -> `hang`.
         f if calls_section(f) && std::env::var("C17_CHILD").is_err() => {
-            use std::io::Write;
+            use std::io::{Read, Write};
             use std::process::{Command, Stdio};
+            use std::sync::atomic::{AtomicUsize, Ordering};
+            // A child that does not answer within 150 ms is retried once with a 3 s budget (a loaded machine can take longer than
+            // 150 ms just to start the process); after 3 confirmed hangs the retry is dropped so that a tree that really hangs
+            // on many inputs does not make the run crawl.
+            static CONFIRMED_HANGS: AtomicUsize = AtomicUsize::new(0);
             let line = format!("C17 {} {}\n", func, a.t[a.i..].join(" "));
-            let mut child = Command::new(std::env::current_exe().expect("exe")).arg("exec").env("C17_CHILD", "1")
-                .stdin(Stdio::piped()).stdout(Stdio::piped()).stderr(Stdio::null()).spawn().expect("spawn");
-            child.stdin.take().unwrap().write_all(line.as_bytes()).expect("write");
-            let t0 = std::time::Instant::now();
-            loop {
-                match child.try_wait() {
-                    Ok(Some(_)) => break,
-                    Ok(None) => {
-                        if t0.elapsed().as_millis() > 150 { let _ = child.kill(); let _ = child.wait(); return "hang".into(); }
-                        std::thread::sleep(std::time::Duration::from_millis(2));
+            let run = |budget_ms: u128| -> Option<String> {
+                let mut child = Command::new(std::env::current_exe().expect("exe")).arg("exec").env("C17_CHILD", "1")
+                    .stdin(Stdio::piped()).stdout(Stdio::piped()).stderr(Stdio::null()).spawn().expect("spawn");
+                child.stdin.take().unwrap().write_all(line.as_bytes()).expect("write");
+                let t0 = std::time::Instant::now();
+                loop {
+                    match child.try_wait() {
+                        Ok(Some(_)) => break,
+                        Ok(None) => {
+                            if t0.elapsed().as_millis() > budget_ms { let _ = child.kill(); let _ = child.wait(); return None; }
+                            std::thread::sleep(std::time::Duration::from_millis(2));
+                        }
+                        Err(_) => return None,
                     }
-                    Err(_) => return "hang".into(),
                 }
+                let mut out = String::new();
+                let _ = child.stdout.take().unwrap().read_to_string(&mut out);
+                Some(match out.trim().split(" | ").nth(1) { Some(o) => o.to_string(), None => "hang".into() })
+            };
+            match run(150) {
+                Some(o) => o,
+                None if CONFIRMED_HANGS.load(Ordering::Relaxed) < 3 => match run(3000) {
+                    Some(o) => o,
+                    None => { CONFIRMED_HANGS.fetch_add(1, Ordering::Relaxed); "hang".into() } },
+                None => "hang".into(),
             }
-            let mut out = String::new();
-            use std::io::Read;
-            let _ = child.stdout.take().unwrap().read_to_string(&mut out);
-            match out.trim().split(" | ").nth(1) { Some(o) => o.to_string(), None => "hang".into() }
         }
+        "tm_section_m" => { let m = mesh(a); let n = d3::v(a); let bias = a.f(); let eps = a.f();
+            fsection(m.intersection_with_local_plane(&Unit::new_unchecked(n), bias, eps)) }
         "tm_section" => { let m = mesh(a); let n = d3::v(a); let bias = a.f(); let eps = a.f();
             match m.intersection_with_local_plane(&Unit::new_unchecked(n), bias, eps) {
                 IntersectResult::Negative => "neg".into(), IntersectResult::Positive => "pos".into(),
@@ -145,6 +184,10 @@ pub fn exec(func: &str, a: &mut Args) -> String {
         // ---- world-space and canonical-axis wrappers (results are expressed in the mesh's local frame, like the local functions')
         "tm_section_pos" => { let m = mesh(a); let pos = d3::iso(a); let n = d3::v(a); let bias = a.f(); let eps = a.f();
             fsection(m.intersection_with_plane(&pos, &Unit::new_unchecked(n), bias, eps)) }
+        "tm_section_m_pos" => { let m = mesh(a); let pos = d3::iso(a); let n = d3::v(a); let bias = a.f(); let eps = a.f();
+            fsection(m.intersection_with_plane(&pos, &Unit::new_unchecked(n), bias, eps)) }
+        "tm_section_m_canon" => { let m = mesh(a); let axis = a.u(); let bias = a.f(); let eps = a.f();
+            fsection(m.canonical_intersection_with_plane(axis, bias, eps)) }
         "tm_canon_split" => { let m = mesh(a); let axis = a.u(); let bias = a.f(); let eps = a.f();
             fsplit(m.canonical_split(axis, bias, eps)) }
         "tm_canon_section" => { let m = mesh(a); let axis = a.u(); let bias = a.f(); let eps = a.f();
@@ -551,7 +594,7 @@ pub fn gen(r: &mut Rng, thorough: bool) -> Vec<(String, String)> {
                 5 => (x.maxs - o) * *r.pick(&[1.0, -1.0, 0.5, 2.0]),   // through a vertex
                 _ => { let s = if lat { 1.0 } else { r.logu(1e-3, 1e3) }; d3::gen_v(r, lat, 2.0) * s } };
             let args = format!("{} {} {}", haabb(&x), d3::hp(&o), d3::hv(&d));
-            for f in ["clip_line", "clip_line_params", "clip_ray_params"] { v.push((f.to_string(), args.clone())); }
+            for f in ["clip_line", "clip_line_params", "clip_ray_params", "clip_line_seg", "clip_ray_seg"] { v.push((f.to_string(), args.clone())); }
             // segment: [o, o + d] and variants that stop short of / start beyond the box
             let pb = o + d;
             v.push(("clip_seg".into(), format!("{} {} {}", haabb(&x), d3::hp(&o), d3::hp(&pb))));
@@ -599,6 +642,14 @@ pub fn gen(r: &mut Rng, thorough: bool) -> Vec<(String, String)> {
             if r.bool() { core::mem::swap(&mut a2, &mut b2); }
             if r.below(8) == 0 { a2 = d2::gen_p(r, lat, 8.0); b2 = d2::gen_p(r, lat, 8.0); }
             v.push(("clip_seg_seg".into(), format!("{} {} {} {}", d2::hp(&a1), d2::hp(&b1), d2::hp(&a2), d2::hp(&b2))));
+            // `clip_segment_segment_with_normal`: same pairs; the normal is the left normal of seg1 (the caller's convention:
+            // tangent = seg1 direction), an axis, a lattice / random vector (non-unit, sometimes zero), or the normal of seg2
+            let d1 = b1 - a1;
+            let nn = match it % 6 { 0 => d2::Vector::new(d1.y, -d1.x), 1 => d2::Vector::new(-d1.y, d1.x) / d1.norm().max(1e-3),
+                2 => *[d2::Vector::new(0.0, 1.0), d2::Vector::new(1.0, 0.0), d2::Vector::new(0.0, -1.0), d2::Vector::zeros()].get((it / 6) % 4).unwrap(),
+                3 => { let d = b2 - a2; d2::Vector::new(d.y, -d.x) }
+                _ => nrm * if lat { 2.0 } else { 1.0 } };
+            v.push(("clip_seg_seg_n".into(), format!("{} {} {} {} {}", d2::hp(&a1), d2::hp(&b1), d2::hp(&a2), d2::hp(&b2), d2::hv(&nn))));
         }
 
         // ---- TriMesh split / plane section (oracle-only): planes through vertices, along edges, generic; bias sweep
@@ -610,7 +661,7 @@ pub fn gen(r: &mut Rng, thorough: bool) -> Vec<(String, String)> {
             let (lo, hi) = ds.iter().fold((f64::MAX, -f64::MAX), |(a, b), d| (a.min(*d), b.max(*d)));
             let k = r.below(mv.len() as u64) as usize;
             let t = mi[r.below(mi.len() as u64) as usize];
-            for _ in 0..2 {
+            for j in 0..2 {
                 let eps = *r.pick(&[0.0, 0.0, 1e-9, 1e-6, 1e-3, 0.125, 0.25]);
                 let bias = match r.below(6) {
                     0 => ds[k],                                             // through a vertex
@@ -621,6 +672,8 @@ pub fn gen(r: &mut Rng, thorough: bool) -> Vec<(String, String)> {
                 let args = format!("{} {} {} {}", hmesh(oriented, &mv, &mi), d3::hv(&nrm), hx(bias), hx(eps));
                 v.push(("tm_split".into(), args.clone()));
                 v.push(("tm_verdict".into(), args.clone()));
+                if j == 0 { v.push(("tm_cut".into(), args.clone())); }
+                v.push(("tm_section_m".into(), args.clone()));
                 v.push(("tm_section".into(), args));
             }
             if it % 8 == 0 {
@@ -664,7 +717,9 @@ pub fn gen(r: &mut Rng, thorough: bool) -> Vec<(String, String)> {
                 _ => r.uniform(lo - 0.1, hi + 0.1) };
             let args = format!("{} {} {} {} {}", hm, d3::hiso(&pos), d3::hv(&nrm), hx(bias), hx(eps));
             v.push(("tm_split_pos".into(), args.clone()));
+            v.push(("tm_cut_pos".into(), args.clone()));
             v.push(("tm_section_pos".into(), args.clone()));
+            v.push(("tm_section_m_pos".into(), args.clone()));
             v.push(("tm_verdict_pos".into(), args.clone()));
             let un = Unit::new_unchecked(nrm);
             let la = pos.inverse_transform_unit_vector(&un);
@@ -681,7 +736,9 @@ pub fn gen(r: &mut Rng, thorough: bool) -> Vec<(String, String)> {
                 _ => mv[k][(axis + 1) % 3] }; // the value a wrong axis would be compared with
             let args = format!("{} {} {} {}", hm, axis, hx(bias), hx(eps));
             v.push(("tm_canon_split".into(), args.clone()));
+            v.push(("tm_cut_canon".into(), args.clone()));
             v.push(("tm_canon_section".into(), args.clone()));
+            v.push(("tm_section_m_canon".into(), args.clone()));
             v.push(("tm_verdict_canon".into(), args.clone()));
             v.push(("tm_plane_canon".into(), format!("{} {}", args, d3::hv(&V3::ith_axis(axis)))));
         }
